@@ -47,7 +47,7 @@ Advance(tags) ==
 \* the phase that is wrong (C11), otherwise the up-saw read-out itself (C10)
 PhaseTags(what) ==
   IF e.a = acc' THEN {}
-  ELSE IF e.a >= 0 /\ e.a < M /\ TriAt(e.a) = 4 * e.t4 THEN {<<"C11", what>>}
+  ELSE IF e.a >= 0 /\ e.a < M /\ TriAt(e.a) % 4 = 0 /\ TriAt(e.a) \div 4 = e.t4 THEN {<<"C11", what>>}
   ELSE {<<"C10", "saw">>}
 
 CeilDiv(x, d) == -((-x) \div d)
@@ -65,7 +65,7 @@ GetTags ==
   \cup (IF ~e.x THEN {<<"C10", "inexact">>} ELSE {})
   \cup (IF e.dn # -e.saw THEN {<<"C10", "down-saw">>} ELSE {})
   \cup (IF e.sq # SqrAt(a) THEN {<<"C10", "square">>} ELSE {})
-  \cup (IF 4 * e.tri # TriAt(a) THEN {<<"C10", "triangle">>} ELSE {})
+  \cup (IF TriAt(a) % 4 # 0 \/ e.tri # TriAt(a) \div 4 THEN {<<"C10", "triangle">>} ELSE {})
   \cup (IF e.sin = NaNKey \/ ~Near(e.sin, SinAt(a), SineTol) THEN {<<"C10", "sine-accuracy">>} ELSE {})
   \cup (IF e.sin > 16777216 \/ e.sin < -16777216 THEN {<<"C10", "sine-range">>} ELSE {})
 
@@ -109,7 +109,7 @@ TSetPhase ==
            \cup (IF ~e.neg /\ (e.a < e.lo - 4 \/ e.a > e.hi + 4) THEN {<<"C11", "set-phase">>} ELSE {})
            \cup (IF e.neg /\ e.lo = e.hi /\ lastNeg[1] = e.lo /\ lastNeg[2] # e.a
                    THEN {<<"C11", "set-phase-negative">>} ELSE {})
-           \cup (IF e.a >= 0 /\ e.a < M /\ TriAt(e.a) # 4 * e.t4 THEN {<<"C10", "saw">>} ELSE {}))
+           \cup (IF e.a >= 0 /\ e.a < M /\ (TriAt(e.a) % 4 # 0 \/ TriAt(e.a) \div 4 # e.t4) THEN {<<"C10", "saw">>} ELSE {}))
 
 TReset ==
   /\ e.op = "r"
